@@ -19,7 +19,8 @@ from checks import pycommon as PC
 
 TAILS = ['\n', '', ' // trailing comment', ' /* c */', '  ', '\n// last line comment',
          ' // }; class Ghost {};', '\n\n', '\t']
-STEMS = ['geometry', 'basis', 'nonlinear', 'part2', 'slam_x', 'b', 'core', 'sfm', 'custom']
+STEMS = ['geometry', 'basis', 'nonlinear', 'part2', 'slam_x', 'b', 'core', 'sfm', 'custom',
+         'pauli', 'imu_i', 'i']
 
 
 def profile():
